@@ -63,6 +63,64 @@ pub fn encode_all(lv: &Value) -> Result<(), (String, String)> {
         let _ = format!("{lv:?}");
     })
     .map_err(|p| ("debug".to_string(), p))?;
+    // format specifications: display text is asked for with width, fill, alignment, precision,
+    // sign and alternate flags (table and log lines); none of them may panic either
+    guarded(|| {
+        use std::fmt::Write;
+        let mut s = String::new();
+        macro_rules! specs {
+            ($x:expr) => {{
+                let x = $x;
+                let _ = write!(s, "{x:1}{x:8}{x:<8}{x:>6}{x:^30}{x:*^5}{x:.0}{x:.3}{x:08.2}{x:+}{x:#}{x:300}{x:-<2}");
+                for w in [0usize, 1, 2, 3, 5, 17, 64] {
+                    for pr in [0usize, 1, 4, 40] {
+                        let _ = write!(s, "{x:w$}{x:<w$}{x:>w$.pr$}{x:^w$.pr$}");
+                    }
+                }
+                s.clear();
+            }};
+        }
+        macro_rules! dspecs {
+            ($x:expr) => {{
+                let x = $x;
+                let _ = write!(s, "{x:1?}{x:#?}{x:<40?}{x:.2?}{x:#10?}");
+                s.clear();
+            }};
+        }
+        specs!(lv);
+        dspecs!(lv);
+        specs!(libhaystack::val::kind::HaystackKind::from(lv));
+        match lv {
+            Value::DateTime(x) => {
+                specs!(x);
+                dspecs!(x);
+            }
+            Value::Date(x) => {
+                specs!(x);
+                dspecs!(x);
+            }
+            Value::Time(x) => {
+                specs!(x);
+                dspecs!(x);
+            }
+            Value::Ref(x) => {
+                specs!(x);
+                dspecs!(x);
+            }
+            Value::Symbol(x) => {
+                specs!(x);
+                dspecs!(x);
+            }
+            Value::Number(x) => {
+                if let Some(u) = x.unit {
+                    specs!(u);
+                }
+                dspecs!(x);
+            }
+            _ => {}
+        }
+    })
+    .map_err(|p| ("format-spec".to_string(), p))?;
     // the typed values' own Display / Debug
     guarded(|| {
         use std::fmt::Write;
@@ -320,7 +378,7 @@ pub fn json_docs() -> Vec<String> {
 
 pub fn run(tier: Tier) -> i32 {
     let mut run = Run::new("C10", tier, "exploration");
-    run.rule = "U_all: every String field over 27 strings (empty, non-ASCII first, multi-char uppercase, controls, 300 chars) in every position; NaN/INF with units; date/time/timestamp extremes; ill-shaped grids; every display tag with every kind; nesting chains of every depth 1..64; plus the image of the Zinc decoder on every string <= 4/5 over the 27-byte token alphabet and of the Hayson decoder on ~10^4 kind-tagged documents; each through to_zinc_string, typed ToZinc, serde_json to_string/to_vec/to_value, Display, Debug, Dict::dis, dict_to_dis; non-trivial = distinct value".into();
+    run.rule = "U_all: every String field over 27 strings (empty, non-ASCII first, multi-char uppercase, controls, 300 chars) in every position; NaN/INF with units; date/time/timestamp extremes; ill-shaped grids; every display tag with every kind; nesting chains of every depth 1..64; plus the image of the Zinc decoder on every string <= 4/5 over the 27-byte token alphabet and of the Hayson decoder on ~10^4 kind-tagged documents; each through to_zinc_string, typed ToZinc, serde_json to_string/to_vec/to_value, Display, Debug, Display and Debug under ~125 format specifications (width 0-300, fill, the three alignments, precision 0-40, sign, alternate, zero padding; Value, Date, Time, DateTime, Ref, Symbol, Unit, HaystackKind), Dict::dis, dict_to_dis; non-trivial = distinct value".into();
     run.assume("timestamps stay two days inside chrono's representable range: at the very limits chrono itself panics computing the local time (trusted-base limitation, not libhaystack code)");
     run.assume("Display is driven through write! (an Err from Display is 'an error', which the statement allows; `to_string()` would turn it into a panic of the caller)");
     crate::engine::quiet_panics();
